@@ -143,7 +143,8 @@ pub fn boundary(out: &mut Out, big: bool) -> Vec<Case> {
     for spec in [SpecId::FRONTIER, SpecId::HOMESTEAD, SpecId::TANGERINE, SpecId::CANCUN] {
         let mut c = base(spec);
         with_contract(&mut c, A, code(|a| {
-            call(a, 0xf1, A, None, 0, 0, 0);
+            // CALL(self) with GAS - 100: before EIP-150 the requested gas must be affordable after the call cost
+            a.push_u(0).push_u(0).push_u(0).push_u(0).push_u(0).push_u(A).push_u(100).op(0x5a).op(0x03).op(0xf1);
             a.op(0x50).op(0x00);
         }), 0, vec![]);
         for gas in [200_000u64, 1_000_000] {
@@ -414,6 +415,35 @@ pub fn boundary(out: &mut Out, big: bool) -> Vec<Case> {
         c.txs.push(call_tx(&c, Some(3), 50_000, 0, vec![1, 2, 3]));
         add(out, "plain-transfers", c);
     }
+    // account queries on every kind of account; transactions from a sender with code (EIP-3607)
+    for spec in ALL {
+        let mut c = base(spec);
+        c.accts.push(Acct { addr: a_n(0xe0e0), ..Default::default() });
+        c.accts.push(Acct { addr: a_n(0xe0e1), balance: U256::from(5u64), ..Default::default() });
+        c.accts.push(Acct { addr: a_n(0xe0e2), nonce: 1, ..Default::default() });
+        with_contract(&mut c, B, vec![0x00], 0, vec![]);
+        with_contract(&mut c, A, code(|a| {
+            let mut slot = 0u64;
+            for t in [0xdeadu64, 0xe0e0, 0xe0e1, 0xe0e2, B, A, 2, 0xaaaa01] {
+                for op in [0x31u8, 0x3b, 0x3f] {
+                    a.push_u(t).op(op);
+                    sstore_top(a, slot);
+                    slot += 1;
+                }
+            }
+            a.op(0x47);
+            sstore_top(a, 100);
+            a.push_u(8).push_u(0).push_u(0).push_u(B).op(0x3c).push_u(0).op(0x51);
+            sstore_top(a, 101);
+        }), 3, vec![]);
+        c.txs.push(call_tx(&c, Some(A), 3_000_000, 0, vec![]));
+        let mut t = call_tx(&c, Some(0xdead), 100_000, 0, vec![]);
+        t.caller = a_n(A);
+        t.nonce = None;
+        c.accts.iter_mut().find(|x| x.addr == a_n(A)).unwrap().balance = ether(1);
+        c.txs.push(t);
+        add(out, "account-queries", c);
+    }
     // RETURNDATA rules, static-context violations (Byzantium+)
     for spec in [SpecId::BYZANTIUM, SpecId::ISTANBUL, SpecId::CANCUN, SpecId::PRAGUE] {
         let mut c = base(spec);
@@ -531,7 +561,7 @@ pub fn boundary(out: &mut Out, big: bool) -> Vec<Case> {
         let _ = &mut w;
     }
     // access lists
-    for spec in [SpecId::BERLIN, SpecId::LONDON, SpecId::CANCUN, SpecId::PRAGUE] {
+    for spec in [SpecId::BERLIN, SpecId::LONDON, SpecId::MERGE, SpecId::SHANGHAI, SpecId::CANCUN, SpecId::PRAGUE] {
         let mut c = base(spec);
         with_contract(&mut c, A, code(|a| {
             for k in [0u64, 1, 2] {
